@@ -107,7 +107,7 @@ static uint64_t caller_digest(const ctx_t *c)
 {
     uint64_t h = 17; int outer = c->fmt == 0 ? c->n : c->m;
     if (c->haveA) { h = h * 31 + fnv(c->a, c->nnz * sizeof(val_t)); h = h * 31 + fnv(c->idx, c->nnz * sizeof(int_t)); h = h * 31 + fnv(c->ptr, (outer + 1) * sizeof(int_t)); }
-    if (c->haveB) { long tot = (long)c->ldb * c->nrhs; h = h * 31 + fnv(c->b, tot * sizeof(val_t)); h = h * 31 + fnv(c->x, tot * sizeof(val_t)); }
+    if (c->haveB) { long tot = (long)c->ldb * c->nrhs, totx = (long)c->ldx * c->nrhs; h = h * 31 + fnv(c->b, tot * sizeof(val_t)); h = h * 31 + fnv(c->x, totx * sizeof(val_t)); }
     if (c->perm_c) {
         h = h * 31 + fnv(c->perm_c, 64 * sizeof(int)); h = h * 31 + fnv(c->perm_r, 64 * sizeof(int)); h = h * 31 + fnv(c->etree, 64 * sizeof(int));
         h = h * 31 + fnv(c->R, 64 * sizeof(real_t)); h = h * 31 + fnv(c->C, 64 * sizeof(real_t)); h = h * 31 + (uint64_t)c->equed[0];
